@@ -17,6 +17,7 @@ import (
 	"strconv"
 	"strings"
 	"sync"
+	"syscall"
 	"time"
 )
 
@@ -179,6 +180,9 @@ func runMain(args []string) {
 }
 
 func workerMain() {
+	// a case that allocates without bound must kill this worker, not the sandbox
+	lim := syscall.Rlimit{Cur: 8 << 30, Max: 8 << 30}
+	syscall.Setrlimit(syscall.RLIMIT_AS, &lim)
 	sc := bufio.NewScanner(os.Stdin)
 	sc.Buffer(make([]byte, 1<<20), 1<<28)
 	bw := bufio.NewWriterSize(os.Stdout, 1<<20)
